@@ -545,6 +545,10 @@ func runAll(lines []string) []string {
 		go func() {
 			defer wg.Done()
 			for i := range ch {
+				if strings.HasPrefix(lines[i], "LAD ") {
+					res[i] = "LADDER" // measured below, alone
+					continue
+				}
 				res[i], els[i] = runOnce(strings.Split(lines[i], " "))
 			}
 		}()
@@ -565,6 +569,13 @@ func runAll(lines []string) []string {
 			if first == "HANG" && res[i] == "HANG" {
 				hangs++
 			}
+		}
+	}
+	// size ladders: relative cost, one decoder and one shape at a time with nothing else running
+	for i := 0; i < n; i++ {
+		if res[i] == "LADDER" {
+			f := strings.Split(lines[i], " ")
+			hx.Solo(func() { res[i] = runLadder(f, len(f) > 3 && f[3] == "thorough") })
 		}
 	}
 	out := make([]string, n)
@@ -884,6 +895,8 @@ func buildCorpus() *corpus {
 	add(base{dec: "crl", data: crl, der: true})
 	add(base{dec: "dercrl", data: crl, der: true, cap: 1500})
 	add(base{dec: "crl", data: pemOf("X509 CRL")(crl), cap: 1000})
+	// every extension parseCertificate knows, unknown ones, a CSR with an extension request, a CRL with entry extensions
+	c.addShapes(add)
 	// --- PKCS#7 -----------------------------------------------------------------------------------
 	content := []byte("verif pkcs7 content 0123456789")
 	for _, alg := range []int{x509.EncryptionAlgorithmDESCBC, x509.EncryptionAlgorithmAES128GCM} {
@@ -954,13 +967,13 @@ func buildCorpus() *corpus {
 	// --- PKCS#12 --------------------------------------------------------------------------------------
 	p12, err := pkcs12.Encode(keyA, cA, nil, password)
 	must(err)
-	add(base{dec: "p12", data: p12, der: true, cap: 1200})
-	add(base{dec: "p12all", data: p12, der: true, cap: 600})
-	add(base{dec: "p12pem", data: p12, der: true, cap: 600})
+	add(base{dec: "p12", data: p12, der: true, cap: 2200})
+	add(base{dec: "p12all", data: p12, der: true, cap: 1800})
+	add(base{dec: "p12pem", data: p12, der: true, cap: 1500})
 	// a second container (fresh salts and IVs).  This used to be /repo/pkcs12/test.p12 when present - a file that
 	// only exists after somebody ran the package's tests, so the corpus depended on the state of the work tree.
 	if p12b, err := pkcs12.Encode(keyA, cA, nil, password); err == nil {
-		add(base{dec: "p12all", data: p12b, der: true, cap: 300})
+		add(base{dec: "p12all", data: p12b, der: true, cap: 900})
 	}
 	var p12key struct {
 		Version    int
@@ -1044,7 +1057,11 @@ func buildCorpus() *corpus {
 	}
 	sort.Strings(kinds)
 	for _, k := range kinds {
-		add(base{dec: "tls:" + k, data: samples[k], cap: 1500})
+		tcap := 1500
+		if k == "certificate" {
+			tcap = 3500 // the largest message: a larger share of its catalogue per quick run (the offset of the stride rotates with the seed)
+		}
+		add(base{dec: "tls:" + k, data: samples[k], cap: tcap})
 		if k == "certificateRequestGM" {
 			c.reqGM = samples[k]
 			add(base{dec: "CRQ", data: samples[k]})
@@ -1185,6 +1202,8 @@ func gen(seed uint64, tier string) []string {
 			}
 		}
 	}
+	// damage inside each extension value of otherwise well-formed, signed certificates and CSRs
+	c.extensionMutants(r, tier, emit)
 	// ber2der: modelled cases from the PKCS#7 encodings, nesting, the repaired blow-up family
 	bb := base{dec: "BER"}
 	for _, e := range c.extraBER {
@@ -1285,6 +1304,17 @@ func gen(seed uint64, tier string) []string {
 		id++
 		lines = append(lines, fmt.Sprintf("A1G %d %s %s", id, hx.Hex([]byte(name)), hx.Hex(data)))
 	})
+	// relative cost: size ladders of one shape per decoder (harness/cmd/c18/ladder.go)
+	// (quick: six of the shapes, rotating with the seed; thorough: all of them, up to 3 MB)
+	lnames := ladderNames()
+	lstart, lcount, lstride := int(seed%uint64(len(lnames))), 6, 4
+	if tier == "thorough" {
+		lstart, lcount, lstride = 0, len(lnames), 1
+	}
+	for k := 0; k < lcount; k++ {
+		id++
+		lines = append(lines, fmt.Sprintf("LAD %d %s %s", id, lnames[(lstart+k*lstride)%len(lnames)], tier))
+	}
 	// private scalars around the group order
 	for _, s := range []string{"fffffffeffffffffffffffffffffffff7203df6b21c6052b53bbf40939d54123", "fffffffeffffffffffffffffffffffff7203df6b21c6052b53bbf40939d54122",
 		"fffffffeffffffffffffffffffffffff7203df6b21c6052b53bbf40939d54121", "00", "01", "0000000000000000000000000000000000000000000000000000000000000000000001",
